@@ -866,15 +866,66 @@ def hist_configs(tier, seed):
             for (k, n, na, nb) in cases for fl in ("no-rdm1", "supplied-rdm1")]
 
 
+# ----------------------------------------------------------------------------- walker COUNT as an axis
+def job_count(cfg):
+    """Number of walkers in the batch as an input axis: EVERY count in [lo, hi] contiguously, generic complex walkers that all
+    differ; per walker k: Q[k] orthonormal, Q[k]^H W[k] upper triangular, Q[k] (Q[k]^H W[k]) = W[k] and factor[k] = prod diag(Q[k]^H W[k])
+    - i.e. the factor returned at position k belongs to the walker at position k (a blocked / strided implementation is named)."""
+    res = Result()
+    rng = np.random.default_rng(1300 + cfg["seed"])
+    n, na, nb = 3, 2, 1
+    for nw in range(cfg["lo"], cfg["hi"] + 1):
+        Wa = rng.uniform(-1, 1, (nw, n, na)) + 1j * rng.uniform(-1, 1, (nw, n, na))
+        Wb = rng.uniform(-1, 1, (nw, n, nb)) + 1j * rng.uniform(-1, 1, (nw, n, nb))
+        for mode in ("r", "u"):
+            try:
+                Qa, Qb, fa, fb = lib_qr(mode, Wa, Wb if mode == "u" else None)
+            except Exception as ex:
+                res.violation("qr_vmap%s:raises" % ("" if mode == "r" else "_uhf"), dict(part="count", n_walkers=nw, mode=mode, seed=cfg["seed"]),
+                              dict(exception=repr(ex)[:300]))
+                continue
+            worst, first = 0.0, None
+            for (Q, f, W) in ((Qa, fa, Wa),) + (((Qb, fb, Wb),) if mode == "u" else ()):
+                R = np.einsum("kpi,kpj->kij", Q.conj(), W)
+                e = np.maximum.reduce([
+                    np.abs(np.einsum("kpi,kpj->kij", Q.conj(), Q) - np.eye(Q.shape[-1])).reshape(nw, -1).max(axis=1),
+                    np.abs(np.einsum("kpi,kij->kpj", Q, R) - W).reshape(nw, -1).max(axis=1),
+                    np.abs(np.tril(R, -1)).reshape(nw, -1).max(axis=1),
+                    np.abs(np.prod(np.diagonal(R, axis1=1, axis2=2), axis=1) - f) / np.maximum(1e-300, np.abs(f))])
+                badk = np.nonzero(~(e <= 1e-9))[0]
+                worst = max(worst, float(np.nanmax(e)) if np.all(np.isfinite(e)) else np.inf)
+                if len(badk) and first is None:
+                    first = int(badk[0])
+            res.add(states=nw, transitions=nw, evaluations=4 * nw, traces=1)
+            res.nontrivial(("count", mode, nw))
+            res.guard("walker_count_axis")
+            if nw > 64:
+                res.guard("walker_count_axis_above_64")
+            if first is not None:
+                res.violation("qr_vmap%s:factor-or-Q-not-of-the-same-walker/depends-on-number-of-walkers" % ("" if mode == "r" else "_uhf"),
+                              dict(part="count", n_walkers=nw, mode=mode, seed=cfg["seed"]), dict(n_walkers=nw, first_wrong_walker=first, worst=worst))
+    res.sample(dict(part="count", lo=cfg["lo"], hi=cfg["hi"]))
+    return res
+
+
+def count_configs(tier, seed):
+    hi, step = (520, 40) if tier == "thorough" else (264, 24)
+    return [dict(part="count", lo=lo, hi=min(lo + step - 1, hi), seed=seed, tier=tier) for lo in range(1, hi + 1, step)]
+
+
 # ----------------------------------------------------------------------------- driver
 def job(cfg):
+    if cfg["part"] == "count":
+        return job_count(cfg)
     if cfg["part"] == "inithist":
         return job_init_history(cfg)
     return job_qr(cfg) if cfg["part"] == "qr" else job_init(cfg)
 
 
 def run(ctx):
-    ctx.rule = ("part A: configurations = trial kind x (norb,n_up,n_dn) x variant x {unrestricted, restricted} x column scaling "
+    ctx.rule = ("part A': the NUMBER of walkers as an axis: every batch size 1..264 [1..520] contiguously through qr_vmap and qr_vmap_uhf "
+                "on generic complex walkers, the QR oracle applied walker by walker (the factor at position k belongs to walker k); "
+                "part A: configurations = trial kind x (norb,n_up,n_dn) x variant x {unrestricted, restricted} x column scaling "
                 "{1, (1e6,1e-6,..), (1e-6,1e6,..)} x every route {qr_vmap, qr_vmap_uhf, orthonormalize_walkers and _orthogonalize_walkers of "
                 "every propagator class} x trial-parameter sets {first, dense} x the full walker product grid; a state = (configuration, "
                 "scaling, walker); oracle: Q^H Q = 1, Q(Q^H W) = W, Q^H W upper triangular, returned factor = prod diag(Q^H W) (column-relative "
@@ -899,12 +950,12 @@ def run(ctx):
     ctx.assume("'bounded away from zero' = |<psi_T|phi>| / (|psi_T| |phi|) >= 1e-3, the generator's own documented threshold; density-matrix letters are densities of the trial (own, exact, smeared with the trial's orbitals as leading natural orbitals, mean-field reference as mpi_jax supplies it) with an open natural-occupation gap (> 0.2) at n_sigma; a ValueError is always accepted (the property allows refusal), refusals are counted in the guards")
     ctx.assume("complex trial orbitals are admitted for uhf / uhf_cpmc only (their overlap, Green's function, intermediates and rdm1 conjugate the trial; rhf._calc_rdm1 uses mo @ mo.T and stays real); violations on complex orbitals carry the suffix /complex-orbitals")
     ctx.assume("kinds without _calc_rdm1 raise the documented NotImplementedError when no rdm1 is supplied (counted, outside the property)")
-    jobs = hist_configs(ctx.tier, ctx.seed) + qr_configs(ctx.tier, ctx.seed) + init_configs(ctx.tier, ctx.seed)
+    jobs = hist_configs(ctx.tier, ctx.seed) + qr_configs(ctx.tier, ctx.seed) + init_configs(ctx.tier, ctx.seed) + count_configs(ctx.tier, ctx.seed)
     ctx.pmap(job, jobs)
     ctx.violations.sort(key=lambda v: (v["case"]["n"], v["case"]["na"] + v["case"]["nb"], v["case"].get("point", 0)))
     if ctx.violations:
         return  # vacuity guards qualify a pass; a broken generator may legitimately leave some branch unexercised
-    ctx.require_guard("grid_points_u_none", "grid_points_r_none", "grid_points_u_hi-lo", "grid_points_r_lo-hi", "qr_nontrivial_R",
+    ctx.require_guard("walker_count_axis", "walker_count_axis_above_64", "grid_points_u_none", "grid_points_r_none", "grid_points_u_hi-lo", "grid_points_r_lo-hi", "qr_nontrivial_R",
                       "open_shell_restricted_configs", "returned/restricted", "returned/unrestricted",
                       "variational_energy_checked/restricted-open-shell", "spin_broken_restricted_open_shell_cases",
                       "closed_shell_fallback_construction_returned", "refused_ValueError",
@@ -915,6 +966,10 @@ def run(ctx):
 
 def replay(case):
     cfg = dict(case)
+    if cfg["part"] == "count":
+        r = job_count(dict(part="count", lo=int(cfg["n_walkers"]), hi=int(cfg["n_walkers"]), seed=cfg["seed"]))
+        v = [x for x in r.violations if x["case"]["mode"] == cfg["mode"]]
+        return (len(v) > 0, {"violations": [dict(signature=x["signature"], detail=x["detail"]) for x in v][:1]})
     if cfg["part"] == "inithist":
         sub = {k: v for k, v in cfg.items() if k not in ("what", "flavour", "word")}
         sub["flavours"] = [cfg["flavour"]]
